@@ -22,3 +22,4 @@ CFG = dict(
 CFG["rule"] += ' Added after independently written breaking changes: Vault: knows the canonical algorithm names only (aliases are resolved by Encrypt) and unwraps only under the algorithm it wrapped under.'
 CFG["rule"] += ' Key-encryption keys of 2048, 3072, 4096 and 8192 bits (wrapped file keys of 256 to 1024 bytes; manifest lines well beyond 512 bytes).'
 CFG["rule"] += ' Several streams alive at once in one goroutine (OverlapRapid, OverlapSweep): after 0-3 ordinary completed round trips, k = 1..8 streams - each an Encrypt whose ciphertext stream is read, an Encrypt whose returned reader is passed straight into Decrypt (pipeline without intermediate copy), or a Decrypt of a stored document (independent encoder or an earlier kit Encrypt) - each with its own plaintext length (boundary-biased, up to 300 KiB), cipher, algorithm, wrap function, key names and source read script, are opened before any of them is read (or between reads), then advanced by a drawn schedule of single reads (stream i, buffer size n) and finally read to their ends alternately or one after the other, with the default GOMAXPROCS or with 1; every ciphertext stream must be, byte for byte, the published document of its own plaintext under its own options (strict checker, reference decoder, kit Decrypt) and every plaintext stream must equal its own plaintext with a clean EOF. Non-trivial there: >= 2 streams, some payload, and streams really overlapping (>= 2 opened before the first read, or a schedule, or alternate reading).'
+CFG["rule"] += ' Key names: besides the fixed menu (ASCII, spaces, solidus, Cyrillic, HTML-sensitive, newline/tab, astral, 500+ bytes) the menu holds names with the characters on which JSON escaping parts ways with Go / C quoting (BEL, VT, FF, BS, CR, ESC, DEL, NUL, C1 controls, U+2028/9, BOM, soft hyphen, tag and private-use characters, non-characters, U+FFFD), and one case in four draws a name of 1..12 runes from those classes; the manifest must still be the published JSON (strict checker + reference decoder) and the document must decrypt.'
